@@ -347,9 +347,13 @@ impl AggregateExecutionEngine {
                 }
                 _ => {
                     for subgroups in self.group_values.values() {
-                        if let Some(group_value) = subgroups.get(&aggregate_index) {
-                            result_column.push(transform_value(group_value.clone())?);
-                        }
+                        // An aggregate without any value for the group is 0 for COUNT and NULL otherwise
+                        let group_value = match (subgroups.get(&aggregate_index), &aggregate.aggregate) {
+                            (Some(group_value), _) => group_value.clone(),
+                            (None, Aggregate::Count(_, _)) => Value::Int(0),
+                            (None, _) => Value::Null
+                        };
+                        result_column.push(transform_value(group_value)?);
                     }
                 }
             }
@@ -582,7 +586,8 @@ impl GroupAggregator {
             GroupAggregator::StandardDeviation { .. } => Ok(None),
             GroupAggregator::Percentile { values, percentile } => {
                 values.sort();
-                Ok(values.get((*percentile * values.len() as f64) as usize).cloned())
+                let index = ((*percentile * values.len() as f64) as usize).min(values.len().saturating_sub(1));
+                Ok(values.get(index).cloned())
             }
             GroupAggregator::BoolAnd { .. } => Ok(None),
             GroupAggregator::BoolOr { .. } => Ok(None),
@@ -624,6 +629,8 @@ fn extract_having_aggregates<'a>(aggregate_statement: &'a AggregateStatement) ->
     Ok(having_aggregates)
 }
 
+static NULL_VALUE: Value = Value::Null;
+
 fn accept_group<'a>(group_key_mapping: &HashMap<ExpressionTreeHash, usize>,
                     having_aggregates: &Vec<(usize, &'a Aggregate)>,
                     group_key_value: &GroupKey,
@@ -647,7 +654,7 @@ fn accept_group<'a>(group_key_mapping: &HashMap<ExpressionTreeHash, usize>,
 
         group_value_columns.insert(
             format!("{}_{}", aggregate_id, hash),
-            &group_value[&(aggregate_statement.aggregates.len() + having_aggregate_index)]
+            group_value.get(&(aggregate_statement.aggregates.len() + having_aggregate_index)).unwrap_or(&NULL_VALUE)
         );
     }
 
